@@ -16,7 +16,7 @@ pub struct Fix {
     pub k0: Key, pub k1: Key, pub k0s: Key,
     pub m2: Vec<Vec<u8>>, pub m2x: Vec<Vec<u8>>, pub m3: Vec<Vec<u8>>, pub cm1: Vec<Vec<u8>>, pub cm2: Vec<Vec<u8>>,
     pub sig_a: Vec<u8>, pub sig_b: Vec<u8>, pub sig_c: Vec<u8>, pub sig_s: Vec<u8>, pub sig_s3: Vec<u8>,
-    pub proof_a: Vec<u8>, pub cwp1: Vec<u8>, pub cwp2: Vec<u8>, pub blind1: [u8; 32], pub bsig1: Vec<u8>, pub bproof1: Vec<u8>,
+    pub sig_x: Vec<u8>, pub proof_x: Vec<u8>, pub proof_a: Vec<u8>, pub cwp1: Vec<u8>, pub cwp2: Vec<u8>, pub blind1: [u8; 32], pub bsig1: Vec<u8>, pub bproof1: Vec<u8>,
 }
 const H1: &[u8] = b"header-one"; const H2: &[u8] = b"header-two"; const PH1: &[u8] = b"ph-one"; const PH2: &[u8] = b"ph-two";
 
@@ -36,16 +36,20 @@ pub fn fix() -> &'static Fix {
         let sig_s3 = refbbs::sign(shake, &sk(&k0s), &pk(&k0s), H1, &m3).unwrap().to_vec();
         let rnd = |l: &[u8], n: usize| -> Vec<Scalar> { (0..n).map(|i| refbbs::random_scalar_from(b"hist", l, i as u64)).collect() };
         let proof_a = refbbs::proof_gen(sha, &pk(&k0), &sig_a, H1, PH1, &m2, &[1], &rnd(b"pa", 6)).unwrap();
+        // the SAME key octets (sk is a scalar, pk = sk * BP2: neither depends on the ciphersuite) used under the other suite with the
+        // same header and message count: collides in everything but the ciphersuite
+        let sig_x = refbbs::sign(shake, &sk(&k0), &pk(&k0), H1, &m2).unwrap().to_vec();
+        let proof_x = refbbs::proof_gen(shake, &pk(&k0), &sig_x, H1, PH1, &m2, &[1], &rnd(b"px", 6)).unwrap();
         let (cwp1, b1) = refbbs::commit(sha, &cm1, &rnd(b"c1", 3)).unwrap();
         let (cwp2, _b2) = refbbs::commit(sha, &cm2, &rnd(b"c2", 4)).unwrap();
         let bsig1 = refbbs::blind_sign(sha, &sk(&k0), &pk(&k0), &cwp1, H1, &m2).unwrap().to_vec();
         let bproof1 = refbbs::blind_proof_gen(sha, &pk(&k0), &bsig1, H1, PH1, &m2, &cm1, &[0], &[], &b1, &rnd(b"bp", 5 + 3)).unwrap();
-        Fix { k0, k1, k0s, m2, m2x, m3, cm1, cm2, sig_a, sig_b, sig_c, sig_s, sig_s3, proof_a, cwp1, cwp2, blind1: b1.to_be_bytes(), bsig1, bproof1 }
+        Fix { k0, k1, k0s, m2, m2x, m3, cm1, cm2, sig_a, sig_b, sig_c, sig_s, sig_s3, sig_x, proof_x, proof_a, cwp1, cwp2, blind1: b1.to_be_bytes(), bsig1, bproof1 }
     })
 }
 
 /// (name, family). Families: 'G' generators, 'S' sign, 'V' verify, 'P' proofs, 'B' blind interface, 'M' others.
-pub const CALLS: [(&str, char); 41] = [
+pub const CALLS: [(&str, char); 45] = [
     ("generators(5,API_ID)/sha", 'G'), ("generators(5,API_ID_BLIND)/sha", 'G'), ("generators(8,API_ID)/sha", 'G'), ("generators(5,API_ID)/shake", 'G'), ("generators(5,None)/sha", 'G'), ("generators(5,None)/shake", 'G'), ("generators(3,API_ID)/sha", 'G'),
     ("sign(k0,H1,m2)/sha", 'S'), ("sign(k0,H2,m2)/sha", 'S'), ("sign(k0,H1,m3)/sha", 'S'), ("sign(k1,H1,m2)/sha", 'S'), ("sign(k0,H1,m2)/shake", 'S'), ("sign(k0,None,m2)/sha", 'S'),
     ("verify(sigA,H1,m2)=Ok", 'V'), ("verify(sigA,H2,m2)=Err", 'V'), ("verify(sigB,H2,m2)=Ok", 'V'), ("verify(sigB,H1,m2)=Err", 'V'), ("verify(sigC,H1,m3)=Ok", 'V'), ("verify(sigA,H1,m2')=Err", 'V'), ("verify(sigS,H1,m2)/shake=Ok", 'V'),
@@ -55,6 +59,7 @@ pub const CALLS: [(&str, char); 41] = [
     ("blind_proof_verify(BP1,L=2)=Ok", 'B'), ("blind_proof_verify(BP1,L=1)=Err", 'B'), ("blind_proof_verify(BP1,L=3)=Err", 'B'),
     ("update_signature(sigC,i=0)/sha", 'U'), ("update_signature(sigC,i=2)/sha", 'U'), ("update_signature(sigS3,i=0)/shake", 'U'), ("update_signature(sigS3,i=2)/shake", 'U'), ("update_signature(sigC,i=1)/sha", 'U'),
     ("commit(cm2)+validate", 'M'), ("keygen/sha", 'M'), ("messages_to_scalars/shake", 'M'),
+    ("sign(k0 of sha,H1,m2)/shake", 'S'), ("verify(sigX by k0 of sha,H1,m2)/shake=Ok", 'V'), ("proof_gen(sigX by k0 of sha,H1,ph1,D={1})/shake+verify", 'P'), ("proof_verify(PX by k0 of sha,H1,ph1,D={1})/shake=Ok", 'P'),
 ];
 
 pub fn call(i: usize) -> String {
@@ -81,7 +86,10 @@ pub fn call(i: usize) -> String {
         35 => hd(zk.update_signature(&f.k0s.sk, &f.sig_s3, &f.m3[0], b"new", 0, 3)), 36 => hd(zk.update_signature(&f.k0s.sk, &f.sig_s3, &f.m3[2], b"new", 2, 3)), 37 => hd(zs.update_signature(&f.k0.sk, &f.sig_c, &f.m3[1], b"new", 1, 3)),
         38 => match zs.commit(Some(&f.cm2)) { O::Ok((c, _)) => format!("len={} validate={}", c.len(), zs.deserialize_and_validate_commit(Some(&c), 3).kind()), o => o.describe() },
         39 => hd(zs.keygen(&[9u8; 40], Some(b"info"), None).map(|(a, b)| [a, b].concat())),
-        _ => hd(zk.messages_to_scalars(&f.m2, &shake.api_id()).map(|v| v.concat())),
+        40 => hd(zk.messages_to_scalars(&f.m2, &shake.api_id()).map(|v| v.concat())),
+        41 => hd(zk.sign(&f.k0.sk, &f.k0.pk, Some(H1), Some(&f.m2))), 42 => vd(zk.verify(&f.k0.pk, &f.sig_x, Some(H1), Some(&f.m2))),
+        43 => match zk.proof_gen(&f.k0.pk, &f.sig_x, Some(H1), Some(PH1), Some(&f.m2), Some(&[1])) { O::Ok(p) => format!("len={} verify={}", p.len(), vd(zk.proof_verify(&f.k0.pk, &p, Some(H1), Some(PH1), Some(&f.m2[1..]), Some(&[1])))), o => o.describe() },
+        _ => vd(zk.proof_verify(&f.k0.pk, &f.proof_x, Some(H1), Some(PH1), Some(&f.m2[1..]), Some(&[1]))),
     }
 }
 
@@ -100,7 +108,8 @@ pub fn expected(i: usize) -> Option<String> {
         0 => Some(gens(sha, 5, sha.api_id())), 1 => Some(gens(sha, 5, sha.api_id_blind())), 2 => Some(gens(sha, 8, sha.api_id())), 3 => Some(gens(shake, 5, shake.api_id())), 4 => Some(gens(sha, 5, vec![])), 5 => Some(gens(shake, 5, vec![])), 6 => Some(gens(sha, 3, sha.api_id())),
         7 => hx(refbbs::sign(sha, &sk(&f.k0), &pk(&f.k0), H1, &f.m2)), 8 => hx(refbbs::sign(sha, &sk(&f.k0), &pk(&f.k0), H2, &f.m2)), 9 => hx(refbbs::sign(sha, &sk(&f.k0), &pk(&f.k0), H1, &f.m3)),
         10 => hx(refbbs::sign(sha, &sk(&f.k1), &pk(&f.k1), H1, &f.m2)), 11 => hx(refbbs::sign(shake, &sk(&f.k0s), &pk(&f.k0s), H1, &f.m2)), 12 => hx(refbbs::sign(sha, &sk(&f.k0), &pk(&f.k0), b"", &f.m2)),
-        20 => Some("len=304 verify=Ok".into()),
+        20 | 43 => Some("len=304 verify=Ok".into()),
+        41 => hx(refbbs::sign(shake, &sk(&f.k0), &pk(&f.k0), H1, &f.m2)),
         25 => hx(refbbs::blind_sign(sha, &sk(&f.k0), &pk(&f.k0), &[], H1, &f.m2)), 26 => hx(refbbs::blind_sign(sha, &sk(&f.k0), &pk(&f.k0), &f.cwp1, H1, &f.m2)), 27 => hx(refbbs::blind_sign(sha, &sk(&f.k0), &pk(&f.k0), &f.cwp2, H1, &f.m2)),
         33 => hx(refbbs::update_signature(sha, &sk(&f.k0), &f.sig_c, &f.m3[0], b"new", 0, 3)), 34 => hx(refbbs::update_signature(sha, &sk(&f.k0), &f.sig_c, &f.m3[2], b"new", 2, 3)),
         35 => hx(refbbs::update_signature(shake, &sk(&f.k0s), &f.sig_s3, &f.m3[0], b"new", 0, 3)), 36 => hx(refbbs::update_signature(shake, &sk(&f.k0s), &f.sig_s3, &f.m3[2], b"new", 2, 3)), 37 => hx(refbbs::update_signature(sha, &sk(&f.k0), &f.sig_c, &f.m3[1], b"new", 1, 3)),
